@@ -32,7 +32,7 @@ FUNCTIONS = ["jinja2.bccache.Bucket.load_bytecode/write_bytecode/bytecode_from_s
 OUTSIDE = ["histories longer than 4 (quick) / 5 (thorough) operations; more than two environments",
            "entries damaged other than by truncation (bit flips, forged entries with a matching magic and checksum)",
            "bytecode really produced by another interpreter (only its magic header is modelled)",
-           "crash points inside a single write call finer than {nothing, half, all} of the data",
+           "amounts of data on disk at a crash point other than the tabulated cuts (all, 0, magic/checksum boundaries, half)",
            "real concurrency between processes; Windows file semantics",
            "truncation offsets inside the pickled checksum and environments of different configuration hitting each "
            "other's entries: excluded in pre: as suspected genuine defects (see SUSPECTED_DEFECTS)"]
@@ -52,8 +52,9 @@ SUSPECTED_DEFECTS = [
     "environments differing in autoescape, delimiters, trim_blocks/lstrip_blocks, enable_async, sandboxing or finalize "
     "that share one cache load each other's bytecode (wrong output, TypeError \"'async for' requires an object with "
     "__aiter__\", AttributeError \"'Environment' object has no attribute 'call'\", or a sandboxed environment running "
-    "unsandboxed `context.call` code); found by hist_ok([0, 3]) (env0 loads a.txt, env1 loads a.txt) in conditions "
-    "history[*,base/<other>] when the pre: exclusion `not cross_reuse(ops)` is removed",
+    "unsandboxed `context.call` code); found by hist_ok(h) for every history number h whose operations (ops_of(h)) "
+    "contain 'env0 loads name n' and 'env1 loads name n' with no modification of n's source or clear in between, e.g. "
+    "h = 27 = ops [0, 3, 0] in condition history[dict,alias,base/trim], when the pre: exclusion `not cross_reuse(h)` is removed",
 ]
 
 ROOT = None
@@ -83,9 +84,10 @@ INC = "{% include 'inc.txt' %}\n"
 
 
 def _tail():
-    # the include (resolved relative to the including name) is left out where two differently configured
-    # environments share the store: the included template would be one more entry both of them hit
-    return TAIL if P.get("noinc") else TAIL + INC
+    # src "full": configuration-sensitive tail + include resolved relative to the including name;
+    # "noinc": without the include (where two differently configured environments share the store the included
+    # template would be one more entry both of them hit); "inc": include only; "small": neither (short entries)
+    return {"full": TAIL + INC, "noinc": TAIL, "inc": "|" + INC, "small": ""}[P.get("src", "full")]
 
 
 def src_a(v):
@@ -347,7 +349,8 @@ def expected(cfg, src, name):
 def _mkroot():
     global ROOT
     if ROOT is None:
-        ROOT = tempfile.mkdtemp(prefix="vf-c27-")
+        shm = "/dev/shm"      # memory-backed scratch space when there is one (many small files are written per path)
+        ROOT = tempfile.mkdtemp(prefix="vf-c27-", dir=shm if os.path.isdir(shm) and os.access(shm, os.W_OK) else None)
         atexit.register(shutil.rmtree, ROOT, True)
 
 
@@ -382,7 +385,7 @@ def setup(param):
     magic_len = len(bcc.bc_magic)
     chk = pickle.dumps(bcc.BytecodeCache().get_source_checksum(src_a(0)), 2)
     assert ents[0][:magic_len] == bcc.bc_magic and ents[0][magic_len:magic_len + len(chk)] == chk
-    S.update(key=key, entry=ents[0], entry_other=ents[1], hdr_lo=magic_len, hdr_hi=magic_len + len(chk), cfg=cfg, name=name)
+    S.update(names01=src.names[:2], key=key, entry=ents[0], entry_other=ents[1], hdr_lo=magic_len, hdr_hi=magic_len + len(chk), cfg=cfg, name=name)
     if P.get("what") == "crash":
         S["npoints"] = _count_points()
     if P.get("what") == "foreign":
@@ -397,15 +400,22 @@ def ENTRY_LEN():
     return len(S["entry"])
 
 
+# VERIF_C27_NO_EXCLUSIONS=1 ./vf check C27 quick   drops the two pre: exclusions below, so that the check re-finds the
+# suspected defects as VIOLATIONs (for confirming them, or for confirming a fix)
+NOEXCL = bool(os.environ.get("VERIF_C27_NO_EXCLUSIONS"))
+
+
 def in_header(off):
     """SUSPECTED DEFECT (pickle.load outside the try): offsets inside the pickled checksum raise instead of missing."""
+    if NOEXCL:
+        return False
     return S["hdr_lo"] <= off < S["hdr_hi"]
 
 
-def _fresh_ok(directory=None):
-    """A fresh environment over the (possibly damaged) store renders every name like an uncached environment."""
+def _fresh_ok(directory=None, names=None):
+    """A fresh environment over the (possibly damaged) store renders the names like an uncached environment."""
     be, src, cfg = S["be"], S["src"], S["cfg"]
-    for name in src.names:
+    for name in names or src.names:
         if render(mkenv(cfg, src.loader, be.cache(directory)), name) != expected(cfg, src, name):
             return False
     return True
@@ -427,7 +437,7 @@ def _trunc_native(off):
     be.wipe()
     be.put(S["key"], S["entry"][:off])
     # first load sees the truncated entry, second (other fresh environment) whatever the first one wrote back
-    return _fresh_ok() and _fresh_ok()
+    return _fresh_ok(names=S["names01"]) and _fresh_ok(names=S["names01"][:1])
 
 
 # ------------------------------------------------------------------------------------------------ 2. foreign / stale entries
@@ -479,32 +489,43 @@ class _Kill(BaseException):
     """Stands for an asynchronous interruption (KeyboardInterrupt, SystemExit, ...)."""
 
 
-FAULTS = ["crash-only", "OSError", "MemoryError", "BaseException", "short-write"]
+FAULTS = ["crash-only", "OSError", "MemoryError", "BaseException"]
+
+
+def _cuts():
+    """How many bytes of a written file reach the disk before the fault/crash point (None: every write at once).
+    Models the file buffer: the rest arrives when the file is closed - or never, if the fault hit first."""
+    lo, hi, n = S["hdr_lo"], S["hdr_hi"], len(S["entry"])
+    t = [None, 0, lo - 1, lo, lo + 20, hi - 1, hi, n // 2]
+    return t + [1, hi + 3, n - 1] if P.get("morecuts") else t
+
+
+def NCUTS():
+    return len(_cuts())
 
 
 class Injector:
-    def __init__(self, at, fault, snapdir):
+    def __init__(self, at, fault, snapdir, cut=None):
         self.n = 0
         self.at = at
         self.fault = fault
         self.snapdir = snapdir
+        self.cut = cut
         self.raised = None
         self.trace = []
 
-    def point(self, what, partial=None):
+    def point(self, what):
         """A point of the write path; at the selected one: snapshot the directory, then raise the fault."""
         i = self.n
         self.n += 1
         self.trace.append(what)
         if i != self.at:
             return
-        if self.fault == "short-write" and partial is not None:
-            partial()
         if self.snapdir:
             shutil.copytree(S["be"].dir, self.snapdir)
         if self.fault == "crash-only":
             return
-        if self.fault in ("OSError", "short-write"):
+        if self.fault == "OSError":
             self.raised = OSError(28, "No space left on device")
         elif self.fault == "MemoryError":
             self.raised = MemoryError()
@@ -514,29 +535,47 @@ class Injector:
 
 
 class _FileProxy:
+    """File object handed to the cache's write path: counts the points, and lets only the first `cut` bytes
+    reach the real file before it is closed (all of them when cut is None)."""
+
     def __init__(self, real, inj):
         self._real = real
         self._inj = inj
+        self._buf = b""
+        self._disk = 0
 
     @property
     def name(self):
         return self._real.name
 
-    def write(self, data):
-        def partial():
-            self._real.write(bytes(data)[: len(data) // 2])
+    def _sync(self, everything=False):
+        cut = self._inj.cut
+        limit = len(self._buf) if everything or cut is None else min(len(self._buf), cut)
+        if limit > self._disk:
+            self._real.write(self._buf[self._disk:limit])
             self._real.flush()
-        self._inj.point("before-write", partial)
-        n = self._real.write(data)
-        self._real.flush()
+            self._disk = limit
+
+    def write(self, data):
+        self._inj.point("before-write")
+        self._buf += bytes(data)
+        self._sync()
         self._inj.point("after-write")
-        return n
+        return len(data)
+
+    def flush(self):
+        pass
 
     def close(self):
-        if not self._real.closed:
+        if self._real.closed:
+            return
+        try:
             self._inj.point("before-close")
+            if self._inj.raised is None:     # after a fault the buffered rest never arrives
+                self._sync(True)
+        finally:
             self._real.close()
-            self._inj.point("after-close")
+        self._inj.point("after-close")
 
     def __enter__(self):
         return self
@@ -626,24 +665,25 @@ def NPOINTS():
     return S["npoints"]
 
 
-def crash_ok(j: int, fault: int, prior: int) -> bool:
+def crash_ok(j: int, fault: int, prior: int, cut: int) -> bool:
     """
-    pre: 0 <= j < NPOINTS() and 0 <= fault < len(FAULTS) and 0 <= prior < len(PRIORS)
+    pre: 0 <= j < NPOINTS() and 0 <= fault < len(FAULTS) and 0 <= prior < len(PRIORS) and 0 <= cut < NCUTS()
     post: _
     """
     j = pick(j, NPOINTS())
     fault = pick(fault, len(FAULTS))
     prior = pick(prior, len(PRIORS))
+    cut = pick(cut, NCUTS())
     with NoTracing():
-        return _crash_native(j, fault, prior)
+        return _crash_native(j, fault, prior, _cuts()[cut])
 
 
-def _crash_native(j, fault, prior):
+def _crash_native(j, fault, prior, cut=None):
     be, src, cfg = S["be"], S["src"], S["cfg"]
     _prior(prior)
     snap = os.path.join(WORK, "snap")
     shutil.rmtree(snap, True)
-    inj = Injector(j, FAULTS[fault], snap)
+    inj = Injector(j, FAULTS[fault], snap, cut)
     _install(inj)
     try:
         try:
@@ -660,10 +700,10 @@ def _crash_native(j, fault, prior):
     if inj.n < 1:
         return False
     # (a) the process died at point j: whoever opens the directory next gets current templates
-    if os.path.isdir(snap) and not _fresh_ok(snap):
+    if os.path.isdir(snap) and not _fresh_ok(snap, names=S["names01"][:1]):
         return False
     # (b) the process survived the exception: same for the live directory, twice (second load hits what the first wrote)
-    return _fresh_ok() and _fresh_ok()
+    return _fresh_ok(names=S["names01"]) and _fresh_ok(names=S["names01"][:1])
 
 
 # ------------------------------------------------------------------------------------------------ 4. histories
@@ -692,30 +732,50 @@ def _walk(ops):
     return False
 
 
-def cross_reuse(ops):
+def cross_reuse(h):
     """SUSPECTED DEFECT (cache key ignores the configuration): only relevant when the two environments differ."""
-    if P.get("cfgs", ["base", "base"])[0] == P.get("cfgs", ["base", "base"])[1]:
+    if NOEXCL or P.get("cfgs", ["base", "base"])[0] == P.get("cfgs", ["base", "base"])[1]:
         return False
-    return _walk([pick(o, NOPS) for o in ops])
+    h = pick(h, NHIST())
+    with NoTracing():
+        return _walk(ops_of(h))
 
 
 def HLEN():
     return P.get("hlen", 3)
 
 
-def FIRST_OK(ops):
-    f = P.get("first")
-    return f is None or (len(ops) > 0 and ops[0] == f)
+def NHIST():
+    return NOPS ** (HLEN() - (0 if P.get("first") is None else 1))
 
 
-def hist_ok(ops: List[int]) -> bool:
+def ops_of(h):
+    """History number -> list of HLEN() operations (base-9 digits, most significant first; an optional fixed
+    first operation comes from the condition's parameter).  Every shorter history is a prefix of one of these
+    and each load is checked when it happens, so prefixes are covered."""
+    n = HLEN() - (0 if P.get("first") is None else 1)
+    ds = []
+    for _ in range(n):
+        ds.append(h % NOPS)
+        h //= NOPS
+    return ([] if P.get("first") is None else [P["first"]]) + ds[::-1]
+
+
+def hist_no(ops, first=None):
+    h = 0
+    for o in (ops if first is None else ops[1:]):
+        h = h * NOPS + o
+    return h
+
+
+def hist_ok(h: int) -> bool:
     """
-    pre: len(ops) <= HLEN() and all(0 <= o < NOPS for o in ops) and FIRST_OK(ops) and not cross_reuse(ops)
+    pre: 0 <= h < NHIST() and not cross_reuse(h)
     post: _
     """
-    ops = [pick(o, NOPS) for o in ops]
+    h = pick(h, NHIST())
     with NoTracing():
-        return _hist_native(ops)
+        return _hist_native(ops_of(h))
 
 
 def _hist_native(ops):
@@ -739,12 +799,6 @@ def _hist_native(ops):
             src.modify(o - 6)
         else:
             caches[0].clear()
-    # afterwards every name loads correctly in the first environment (the entries left behind are sound)
-    for n, name in enumerate(src.names):
-        if cfgs[0] != cfgs[1] and _walk(list(ops) + [n]):
-            continue
-        if render(envs[0], name) != expected(cfgs[0], src, name):
-            ok = False
     return ok
 
 
@@ -769,14 +823,33 @@ def MCLEN():
     return P.get("mclen", 2)
 
 
-def mc_ok(faults: List[int]) -> bool:
+def NMC():
+    n = GETF * SETF
+    return n ** MCLEN() if P.get("g0") is None else SETF * n ** (MCLEN() - 1)
+
+
+def mc_faults(s):
+    """Schedule number -> one base-36 digit (get fault * 6 + set fault) per load, least significant first; the
+    condition's parameter may fix the first load's get fault (splits the space across conditions)."""
+    n = GETF * SETF
+    faults = []
+    if P.get("g0") is not None:
+        faults.append(P["g0"] * SETF + s % SETF)
+        s //= SETF
+    while len(faults) < MCLEN():
+        faults.append(s % n)
+        s //= n
+    return faults
+
+
+def mc_ok(s: int) -> bool:
     """
-    pre: len(faults) <= MCLEN() and all(0 <= f < GETF * SETF for f in faults)
+    pre: 0 <= s < NMC()
     post: _
     """
-    faults = [pick(f, GETF * SETF) for f in faults]
+    s = pick(s, NMC())
     with NoTracing():
-        return _mc_native(faults)
+        return _mc_native(mc_faults(s))
 
 
 def _mc_native(faults):
@@ -834,10 +907,12 @@ def conditions(tier, seed):
     out = []
     for be in ("fs", "dict", "mc"):
         ld = {"fs": "fs", "dict": "dict", "mc": "alias"}[be]
-        out.append(Cond(f"truncate[{be}]", "trunc_ok", mode="B", param={"backend": be, "loader": ld}, timeout=to,
+        size = "full" if th else "small"
+        out.append(Cond(f"truncate[{be}]", "trunc_ok", mode="B", param={"backend": be, "loader": ld, "src": size}, timeout=to,
                         witnesses=[[0], [1], [14], [70], [400]],
-                        bounds="every truncation offset 0..len(entry) of a stored entry (about 1.1 kB), except offsets inside the "
-                               "pickled checksum (suspected defect); two successive fresh environments load it"))
+                        bounds=f"every truncation offset 0..len(entry) of a stored entry (about {'2.2' if th else '1.3'} kB), except "
+                               "offsets inside the pickled checksum (suspected defect); the name and a second name of the same "
+                               "file are loaded by a fresh environment, then the name again by another one"))
         out.append(Cond(f"foreign[{be}]", "foreign_ok", mode="B", param={"backend": be, "loader": ld, "what": "foreign"}, timeout=to,
                         witnesses=[[0], [3], [5], [9], [30]],
                         bounds="entries assembled from {current, other Python minor/major, other bc_version, zero, .pyc} magic x "
@@ -845,37 +920,48 @@ def conditions(tier, seed):
         out.append(Cond(f"marshal-stub[{be}]", "stub_ok", mode="B", param={"backend": be, "loader": ld}, timeout=to,
                         witnesses=[[0, 1], [2, 0]],
                         bounds="marshal.load replaced by a stub raising each of EOFError/ValueError/TypeError; entry present or absent"))
-    for cfg in (("base", "trim+auto", "sandbox", "async") if th else ("base", "trim+auto")):
-        out.append(Cond(f"write-crash[fs,{cfg}]", "crash_ok", mode="B",
-                        param={"backend": "fs", "loader": "fs", "what": "crash", "cfg": cfg}, timeout=to,
-                        witnesses=[[0, 0, 0], [3, 1, 1], [5, 4, 2], [9, 3, 0]],
-                        bounds="every point of the write path (before/after temp-file creation, each write, close, rename) x "
-                               f"{FAULTS} x prior entry {PRIORS}; directory snapshot at the point loaded by a fresh environment"))
-    for ign in (True, False):
-        out.append(Cond(f"memcached-faults[ignore={ign}]", "mc_ok", mode="B",
-                        param={"backend": "mc", "loader": "alias", "ignore": ign, "mclen": 3 if th else 2}, timeout=to,
-                        witnesses=[[[0, 0]], [[7, 1]], [[35, 20]], [[12]]],
-                        bounds=f"<= {3 if th else 2} loads, each with get fault in ok/raise/None/truncated(3 offsets) x set fault in "
-                               "ok/raise/drop/truncated(3 offsets), then a fault-free load"))
+    for cfg, size in ((("base", "inc"), ("trim+auto", "full"), ("sandbox", "full"), ("async", "full")) if th else
+                      (("base", "small"), ("trim+auto", "small"))):
+        out.append(Cond(f"write-crash[fs,{cfg},{size}]", "crash_ok", mode="B",
+                        param={"backend": "fs", "loader": "fs", "what": "crash", "cfg": cfg, "src": size, "morecuts": th}, timeout=to,
+                        witnesses=[[0, 0, 0, 0], [3, 1, 1, 3], [5, 2, 2, 5], [9, 3, 0, 1], [8, 1, 1, 4]],
+                        bounds="every point of the write path (before/after temp-file creation, each write, close, rename"
+                               + (", for the template and for the template it includes" if size != "small" else "") + ") x "
+                               f"{FAULTS} x prior entry {PRIORS} x bytes that reached the disk before the point (all / 0 / around the "
+                               "magic and checksum boundaries / half); directory snapshot at the point loaded by a fresh environment"))
+    ml = 3 if th else 2
+    for ign, g0 in [(i, g) for i in (True, False) for g in (range(GETF) if th else [None])]:
+        out.append(Cond(f"memcached-faults[ignore={ign}" + ("]" if g0 is None else f",first get fault={g0}]"), "mc_ok", mode="B",
+                        param={"backend": "mc", "loader": "alias", "ignore": ign, "mclen": ml, "src": "inc", "g0": g0}, timeout=to,
+                        witnesses=[[0], [7 + 36 * 1], [35 + 36 * 20], [12], [1295]],
+                        bounds=f"{ml} loads (two names alternating), each with get fault in ok/raise/None/truncated(3 offsets) x "
+                               "set fault in ok/raise/drop/truncated(3 offsets), then a fault-free load"))
     hl = 5 if th else 4
-    plans = [("fs", "fs", ["base", "base"], hl, True), ("dict", "alias", ["base", "base"], hl - 1, False),
-             ("mc", "alias", ["trim+auto", "trim+auto"], hl - 1, False), ("dict", "dict", ["sandbox", "sandbox"], hl - 1, False)]
+    plans = [("fs", "fs", ["base", "base"], hl), ("dict", "alias", ["base", "base"], hl - 1),
+             ("mc", "alias", ["trim+auto", "trim+auto"], hl - 1), ("dict", "dict", ["sandbox", "sandbox"], hl - 1)]
     for other in ("autoescape", "delims", "trim", "async", "sandbox", "finalize"):
         plans.append(("fs" if other in ("autoescape", "sandbox") else "dict", "alias" if other != "delims" else "fs",
-                      ["base", other], hl - 1, False))
-    for be, ld, cfgs, n, split in plans:
-        firsts = list(range(NOPS)) if split or (th and n >= 4) else [None]
+                      ["base", other], hl - 1))
+    for be, ld, cfgs, n in plans:
+        same = cfgs[0] == cfgs[1]
+        firsts = list(range(NOPS)) if n >= 4 else [None]
         for first in firsts:
             f0 = first if first is not None else 0
+            if same:
+                wit = [[f0, 6, 3, 0, 3], [f0, 8, 4, 1, 6], [f0, 7, 7, 2, 5], [f0, 0, 3, 6, 3]]
+            else:
+                wit = [[f0, 4, 7, 5, 7], [f0, 8, 3, 3, 6], [f0 + 2, 7, 5, 6, 8]]
+                if first is not None:   # witnesses must themselves respect the exclusion
+                    wit = [[first, 8, 7, 6, 8][:n], [first, 6, 7, 8, 6][:n]]
             out.append(Cond(f"history[{be},{ld},{cfgs[0]}/{cfgs[1]}" + (f",first={first}]" if first is not None else "]"),
                             "hist_ok", mode="B",
                             param={"backend": be, "loader": ld, "cfgs": cfgs, "hlen": n, "first": first, "cfg": cfgs[0],
-                                   "noinc": cfgs[0] != cfgs[1]},
+                                   "src": "inc" if same else "noinc"},
                             timeout=to,
-                            witnesses=([[[0, 4, 7, 5][:n]], [[0, 8, 3][:n]], [[2, 7, 5, 6][:n]]] if cfgs[0] != cfgs[1] else
-                                       [[[f0, 6, 3, 0][:n]], [[f0, 8, 4, 1][:n]], [[f0, 7, 7, 2][:n]], [[f0, 0, 3, 6, 3][:n]]]),
-                            bounds=f"all histories of <= {n} operations from load(env 0/1, 3 names of which two share one file)/"
-                                   "modify file 0/modify file 1/clear, two environments sharing one store"
-                                   + ("" if cfgs[0] == cfgs[1] else "; histories in which an environment hits an entry written by "
+                            witnesses=[[hist_no(w[:n], first)] for w in wit],
+                            bounds=f"all histories of {n} operations (argument = history number, base-9 digits) from load(env 0/1, "
+                                   "3 names of which two share one file)/modify file 0/modify file 1/clear, two environments "
+                                   "sharing one store; every load is checked, so shorter histories are covered as prefixes"
+                                   + ("" if same else "; histories in which an environment hits an entry written by "
                                       "the differently configured other one are excluded (suspected defect)")))
     return out
